@@ -481,7 +481,7 @@ impl Check for C10 {
         for _ in 0..1 + s.below(4) {
             ops.push(match s.weighted(&[7, 2, 2, 1]) {
                 0 => XOp::Cloud(xcloud(s, &prefixes)),
-                1 => XOp::Blob(BlobSpec { len: s.below(2200) as u32, seed: s.u64() | 1, chunk: 0 }),
+                1 => XOp::Blob(BlobSpec { len: s.below(2200) as u32, seed: s.u64() | 1, chunk: 0, xmlish: false }),
                 2 => {
                     let mut spec = gen::image_spec(s, 1);
                     for r in [&mut spec.visual, &mut spec.projection].into_iter().flatten() {
